@@ -528,6 +528,9 @@ type c20Ewma struct {
 	Ctor  string  `json:"ctor,omitempty"` // ewmaeta | ewmaspeed
 	Age   float64 `json:"age,omitempty"`
 	PerNs int64   `json:"per_item_ns,omitempty"`
+	// HiNs > 0: the rate is not constant, every sample costs between PerNs and HiNs
+	// nanoseconds per item; an average of such samples lies between the two
+	HiNs int64 `json:"hi_per_item_ns,omitempty"`
 }
 
 func (c c20Ewma) unit() interface{} {
@@ -550,13 +553,22 @@ func runConst(c c20Ewma) (msg string) {
 		}
 	}()
 	var base decor.Decorator
+	// the harness' own estimator for the tsma-* cases: the ewma package's
+	// NewMovingAverage(0) is not its default average but a degenerate one (decay
+	// 2), so age 0 means "no argument" here exactly as in the library's constructors
+	userAvg := func() ewma.MovingAverage {
+		if c.Age == 0 {
+			return ewma.NewMovingAverage()
+		}
+		return ewma.NewMovingAverage(c.Age)
+	}
 	switch c.Ctor {
 	case "ewmaspeed":
 		base = decor.EwmaSpeed(c.unit(), c.SFmt, c.Age)
 	case "tsma-speed": // a user-supplied estimator made thread safe by the library's wrapper
-		base = decor.MovingAverageSpeed(c.unit(), c.SFmt, decor.NewThreadSafeMovingAverage(ewma.NewMovingAverage(c.Age)))
+		base = decor.MovingAverageSpeed(c.unit(), c.SFmt, decor.NewThreadSafeMovingAverage(userAvg()))
 	case "tsma-eta":
-		base = decor.MovingAverageETA(decor.ET_STYLE_GO, decor.NewThreadSafeMovingAverage(decor.NewThreadSafeMovingAverage(ewma.NewMovingAverage(c.Age))), nil)
+		base = decor.MovingAverageETA(decor.ET_STYLE_GO, decor.NewThreadSafeMovingAverage(decor.NewThreadSafeMovingAverage(userAvg())), nil)
 	default:
 		base = decor.EwmaETA(decor.ET_STYLE_GO, c.Age)
 	}
@@ -611,6 +623,31 @@ func runConst(c c20Ewma) (msg string) {
 	low := strings.ToLower(str)
 	if strings.Contains(low, "nan") || strings.Contains(low, "inf") {
 		return fmt.Sprintf("printed %q", str)
+	}
+	if c.HiNs > 0 {
+		// varying rate: whatever the smoothing, an average of samples that all cost
+		// between PerNs and HiNs per item lies between the two
+		if strings.HasSuffix(c.Ctor, "speed") {
+			lo, hi := 1e9/float64(c.HiNs), 1e9/float64(c.PerNs)
+			pv, ulp, err := parseNum(strings.TrimSpace(str))
+			if err != nil {
+				return fmt.Sprintf("printed %q: %v", str, err)
+			}
+			v, _ := pv.Float64()
+			u, _ := ulp.Float64()
+			if v < lo*(1-1e-6)-u || v > hi*(1+1e-6)+u {
+				return fmt.Sprintf("%s(age %v) after %d samples costing between %d and %d ns per item printed %q: outside [%v, %v] items/s, which no average of these samples can be", c.Ctor, c.Age, len(c.Samples), c.PerNs, c.HiNs, str, lo, hi)
+			}
+			return ""
+		}
+		lo, hi := float64(total-cur)*float64(c.PerNs), float64(total-cur)*float64(c.HiNs)
+		if hi > float64(c20MaxDur) {
+			return ""
+		}
+		if m := checkTimeString(str, int(decor.ET_STYLE_GO), time.Duration(lo*(1-1e-9)), time.Duration(hi*(1+1e-9))); m != "" {
+			return fmt.Sprintf("%s(age %v) after %d samples costing between %d and %d ns per item, %d items left: %s (no average of these samples is outside that interval)", c.Ctor, c.Age, len(c.Samples), c.PerNs, c.HiNs, total-cur, m)
+		}
+		return ""
 	}
 	if strings.HasSuffix(c.Ctor, "speed") {
 		speed := 1e9 / float64(c.PerNs)
@@ -1094,9 +1131,22 @@ func runC20(job common.Job, em *emitter) {
 					c := c20Ewma{Kind: "const", Ctor: rng.PickS("ewmaeta", "ewmaspeed", "ewmaeta", "ewmaspeed", "tsma-eta", "tsma-speed"), Wrap: rng.Intn(3), Via: rng.PickS("direct", "bar", "barset"),
 						Age: []float64{0, 0, 30, 1, 7.5, 100}[rng.Intn(6)], PerNs: rng.Pick64(1, 3, 1000, 12345, int64(time.Millisecond)),
 						Unit: rng.Pick(1024, 1024, 1000, 0), SFmt: rng.PickS("% .2f", "% .2f", "", "%.1f")}
+					if k%16 == 15 {
+						// a varying rate instead: every sample costs PerNs or three times as much
+						c.PerNs = rng.Pick64(1, 2, 5, 50) // 2^40 items at up to 150 ns each stay under 60 h
+						c.HiNs = 3 * c.PerNs
+						c.Age = []float64{0, 0, 0, 30, 1, 100}[rng.Intn(6)] // 0 = the constructors' default
+						c.Ctor = rng.PickS("ewmaeta", "ewmaeta", "ewmaspeed", "tsma-eta")
+						if strings.HasSuffix(c.Ctor, "speed") {
+							c.Unit = 0
+						}
+					}
 					for i, n := 0, rng.Range(40, 60); i < n; i++ { // well past any estimator's warm-up
 						items := 1 + rng.I64n(1000)
 						d := items * c.PerNs
+						if c.HiNs > 0 && rng.Bool() {
+							d = items * c.HiNs
+						}
 						if rng.Chance(1, 4) && d > 1 {
 							d1 := 1 + rng.I64n(d-1)
 							c.Samples = append(c.Samples, c20Sample{N: 0, D: d1})
